@@ -544,6 +544,24 @@ def rule_metric_source(ctx: Ctx) -> None:
                 hist = hist or [ic]
         has_max = any(isinstance(c, ast.Call) and call_name(c) in ("max", "np.max") for e in exprs for c in ast.walk(e))
         prep = [call_attr(c) for c in calls_in(ev) if call_attr(c) in ("unwrap_nodes", "remove_identity")]
+        early = None
+        if not prep:
+            # the preparation may live in a helper: c = helper(circuit).  It counts when *every* return of the helper comes after both calls.
+            for hc in [x for x in calls_in(ev) if isinstance(x.func, (ast.Name, ast.Attribute)) and x.args]:
+                hname = hc.func.id if isinstance(hc.func, ast.Name) else (hc.func.attr if norm(hc.func.value) == "self" else None)
+                hf = repo.try_anchor(METRICS, hname) if isinstance(hc.func, ast.Name) else (ci.methods().get(hname) if hname else None)
+                if not isinstance(hf, ast.FunctionDef):
+                    continue
+                seen_prep = []
+                for st in hf.body:
+                    rets = [r for r in ast.walk(st) if isinstance(r, ast.Return)]
+                    if rets and seen_prep[:2] != ["unwrap_nodes", "remove_identity"] and any(call_attr(c) in ("unwrap_nodes", "remove_identity") for c in calls_in(hf)):
+                        early = (hf, rets[0])
+                    seen_prep += [call_attr(c) for c in calls_in(st) if call_attr(c) in ("unwrap_nodes", "remove_identity")]
+                if seen_prep:
+                    ctx.touch(m, hf)
+                    prep = seen_prep
+                    break
         if hist and per_emitter and has_max and not other:
             ctx.ok("metric.source", m, hist[0], what=f"{cname}: max over emitters of a count on the emitter's own gate history")
         else:
@@ -551,7 +569,11 @@ def rule_metric_source(ctx: Ctx) -> None:
                    else "does not read reg_gate_history(reg=e) for every e in range(n_emitters)" if not (hist and per_emitter) else "does not take the maximum over emitters")
             ctx.fail("metric.source", m, pen[0], f"{cname}.evaluate {why}; the metric is defined on the gates of each emitter's own wire",
                      func=f"{cname}.evaluate", construct=f"{cname}: per-emitter gate history source")
-        if prep[:2] == ["unwrap_nodes", "remove_identity"]:
+        if early is not None:
+            ctx.fail("metric.source", m, early[1], f"{cname}.evaluate prepares its circuit with `{early[0].name}`, which returns (`{short(early[1])}`, line {early[1].lineno}) "
+                     f"before it has unwrapped the gate wrappers and dropped the identities: on that path identity gates are counted as gates",
+                     func=f"{cname}.evaluate", construct=f"{cname}: preparation helper returns early")
+        elif prep[:2] == ["unwrap_nodes", "remove_identity"]:
             ctx.ok("metric.source", m, ev, what=f"{cname}: evaluated on the unwrapped, identity-free copy")
         else:
             ctx.fail("metric.source", m, ev, f"{cname}.evaluate must unwrap the gate wrappers and then drop identities before counting (found {prep})",
